@@ -116,6 +116,80 @@ pub fn purity_stream(ctx: &mut Ctx) {
             }
             ctx.oracle_ok();
         }
+        // lazy results (`find_words`, `split_words` hand out iterators): two of them alive at the
+        // same time and consumed alternately give what each gives when drained on its own — an
+        // iterator that reads from a buffer shared between calls fails only here
+        {
+            let clause_lazy = "two iterators alive at the same time, consumed alternately, give what each gives on its own";
+            for sep in ['a', 'u', 'x'] {
+                if sep == 'u' && !cfg!(feature = "full") {
+                    continue;
+                }
+                let ws = crate::opt::sep_of(sep);
+                let alone = |x: &str| -> Option<Vec<String>> {
+                    catch_unwind(AssertUnwindSafe(|| ws.find_words(x).map(|w| format!("{:?}", w)).collect::<Vec<_>>())).ok()
+                };
+                let (a1, a2) = (alone(&t), alone(&twin));
+                let inter = catch_unwind(AssertUnwindSafe(|| {
+                    let mut i1 = ws.find_words(&t);
+                    let first = i1.next().map(|w| format!("{:?}", w));
+                    let mut i2 = ws.find_words(&twin);
+                    let (mut r1, mut r2): (Vec<String>, Vec<String>) = (first.into_iter().collect(), Vec::new());
+                    loop {
+                        let x = i2.next().map(|w| format!("{:?}", w));
+                        let y = i1.next().map(|w| format!("{:?}", w));
+                        if x.is_none() && y.is_none() {
+                            break;
+                        }
+                        r2.extend(x);
+                        r1.extend(y);
+                    }
+                    (r1, r2)
+                })).ok();
+                let ok = match (&a1, &a2, &inter) {
+                    (Some(a1), Some(a2), Some((r1, r2))) => a1 == r1 && a2 == r2,
+                    _ => false,
+                };
+                if !ok {
+                    ctx.fail(clause_lazy, format!("find_words[{}] on {} and on {}: alone {:?} / {:?}, interleaved {:?}", sep, crate::proto::show(&t), crate::proto::show(&twin), a1.map(|v| v.len()), a2.map(|v| v.len()), inter.map(|(a, b)| (short(&a.join(" ")), short(&b.join(" "))))), None);
+                } else {
+                    ctx.oracle_ok();
+                }
+                // the same for `split_words` over the two word lists
+                for spn in ["h", "n", "c1"] {
+                    let sp = crate::opt::splitter_of(spn);
+                    let w1: Vec<textwrap::core::Word> = match catch_unwind(AssertUnwindSafe(|| ws.find_words(&t).collect::<Vec<_>>())) { Ok(v) => v, Err(_) => continue };
+                    let w2: Vec<textwrap::core::Word> = match catch_unwind(AssertUnwindSafe(|| ws.find_words(&twin).collect::<Vec<_>>())) { Ok(v) => v, Err(_) => continue };
+                    let alone = |v: &Vec<textwrap::core::Word>| catch_unwind(AssertUnwindSafe(|| textwrap::word_splitters::split_words(v.clone(), &sp).map(|w| format!("{:?}", w)).collect::<Vec<_>>())).ok();
+                    let (b1, b2) = (alone(&w1), alone(&w2));
+                    let inter = catch_unwind(AssertUnwindSafe(|| {
+                        let mut i1 = textwrap::word_splitters::split_words(w1.clone(), &sp);
+                        let mut i2 = textwrap::word_splitters::split_words(w2.clone(), &sp);
+                        let (mut r1, mut r2): (Vec<String>, Vec<String>) = (Vec::new(), Vec::new());
+                        loop {
+                            let x = i1.next().map(|w| format!("{:?}", w));
+                            let y = i2.next().map(|w| format!("{:?}", w));
+                            if x.is_none() && y.is_none() {
+                                break;
+                            }
+                            r1.extend(x);
+                            r2.extend(y);
+                        }
+                        (r1, r2)
+                    })).ok();
+                    let ok = match (&b1, &b2, &inter) {
+                        (Some(b1), Some(b2), Some((r1, r2))) => b1 == r1 && b2 == r2,
+                        (None, _, None) | (_, None, None) => true, // a custom splitter's invalid point panics either way
+                        _ => false,
+                    };
+                    if !ok {
+                        ctx.fail(clause_lazy, format!("split_words[{}] over the words of {} and of {}", spn, crate::proto::show(&t), crate::proto::show(&twin)), None);
+                    } else {
+                        ctx.oracle_ok();
+                    }
+                }
+            }
+        }
         // per entry point, back to back: the call, the same call again, then the same buffers
         // overwritten in place (same addresses, same byte lengths, different content) and the call
         // once more, compared with a fresh thread on fresh strings
